@@ -25,6 +25,7 @@ type taintState struct {
 	from    map[ssa.Value]ssa.Value
 	memory  map[string]bool // function-qualified access paths of tainted memory
 	work    []ssa.Value
+	deps    map[interface{}][]bool
 }
 
 func newTaint(cfg taintCfg) *taintState {
@@ -82,6 +83,7 @@ func (t *taintState) taintMemory(addr ssa.Value, from ssa.Value) {
 		return
 	}
 	t.memory[key] = true
+	t.mark(addr, from) // a pointer to tainted storage carries the taint to whoever receives it
 	eachInstrDeep(rootFn(fn), func(_ *ssa.Function, in ssa.Instruction) {
 		switch x := in.(type) {
 		case *ssa.UnOp:
@@ -120,8 +122,14 @@ func (t *taintState) run() {
 					t.taintMemory(x.Map, v)
 				}
 			case *ssa.Return:
-				// results flow to every call site of this function in the module
+				// results flow to every call site of this function in the module — unless the value
+				// derives from the function's own parameters: that flow is handled per call site
+				// (context-sensitively) in call(), so that a shared accessor such as Header.Get does
+				// not smear taint from one caller to all others
 				fn := x.Parent()
+				if t.cfg.inScope(fn) && fn.Parent() == nil && dependsOnParams(v, fn) {
+					continue
+				}
 				idx := -1
 				for i, res := range x.Results {
 					if res == v {
@@ -202,6 +210,25 @@ func (t *taintState) call(ci ssa.CallInstruction, v ssa.Value) {
 		for i, a := range call.Args {
 			if a == v && i < len(callee.Params) {
 				t.mark(callee.Params[i], v)
+				// per-site result: tainted when some result of the callee depends on this parameter
+				if val := ci.Value(); val != nil {
+					for ri, dep := range t.retDeps(callee, i) {
+						if !dep {
+							continue
+						}
+						if callee.Signature.Results().Len() == 1 {
+							if !cleanType(val.Type()) {
+								t.mark(val, v)
+							}
+						} else {
+							for _, r2 := range *val.Referrers() {
+								if ex, ok := r2.(*ssa.Extract); ok && ex.Index == ri && !cleanType(ex.Type()) {
+									t.mark(ex, v)
+								}
+							}
+						}
+					}
+				}
 			}
 		}
 		return
@@ -252,4 +279,71 @@ func (t *taintState) chain(v ssa.Value) string {
 		parts[i], parts[j] = parts[j], parts[i]
 	}
 	return strings.Join(parts, " -> ")
+}
+
+// paramValues: the parameter itself plus loads of the stack slot it was spilled to.
+func isParamValue(v ssa.Value, par *ssa.Parameter) bool {
+	if v == ssa.Value(par) {
+		return true
+	}
+	if ld, ok := v.(*ssa.UnOp); ok && ld.Op == token.MUL {
+		if al, ok := ld.X.(*ssa.Alloc); ok {
+			for _, ref := range *al.Referrers() {
+				if st, ok := ref.(*ssa.Store); ok && st.Addr == ssa.Value(al) && st.Val == ssa.Value(par) {
+					return true
+				}
+			}
+		}
+	}
+	return false
+}
+
+func dependsOnParams(v ssa.Value, fn *ssa.Function) bool {
+	return dependsOn(v, func(x ssa.Value) bool {
+		for _, par := range fn.Params {
+			if isParamValue(x, par) {
+				return true
+			}
+		}
+		return false
+	})
+}
+
+// retDeps[result index] = the result may depend on parameter i of fn.
+func (t *taintState) retDeps(fn *ssa.Function, i int) []bool {
+	type key struct {
+		fn *ssa.Function
+		i  int
+	}
+	if t.deps == nil {
+		t.deps = map[interface{}][]bool{}
+	}
+	k := key{fn, i}
+	if d, ok := t.deps[k]; ok {
+		return d
+	}
+	n := fn.Signature.Results().Len()
+	d := make([]bool, n)
+	par := fn.Params[i]
+	for _, ret := range returnsOf(fn) {
+		for ri, res := range ret.Results {
+			if ri < n && !d[ri] && dependsOnBarrier(res, func(x ssa.Value) bool { return isParamValue(x, par) }, t.cleanValue) {
+				d[ri] = true
+			}
+		}
+	}
+	t.deps[k] = d
+	return d
+}
+
+// cleanValue: the value is the result of a call whose result is clean by configuration, or has a
+// type that cannot carry the tainted content (bool, numbers).
+func (t *taintState) cleanValue(v ssa.Value) bool {
+	if ex, ok := v.(*ssa.Extract); ok {
+		v = ex.Tuple
+	}
+	if call, ok := v.(*ssa.Call); ok && t.cfg.cleanCall != nil && t.cfg.cleanCall(callName(&call.Call)) {
+		return true
+	}
+	return false
 }
